@@ -1218,3 +1218,9 @@ v("c05-generic-remainder-truncates", "C05", SM, "    return f\"({e0} - FLOOR({e0
 v("c07-leaves-substituted-in-a-loop", "C07", VR, "                return self.replace_leaves(data_map)\n", "                res_ops = self\n                for k_, v_ in data_map.items():\n                    res_ops = res_ops.replace_leaves({k_: v_})\n                return res_ops\n")
 v("c03-polars-select-only-when-extra-columns", "C03", PM, "        data = data.select(blocks_in.block_columns)\n", "        if len(data.columns) != len(blocks_in.block_columns):\n            data = data.select(blocks_in.block_columns)\n")
 v("c17-polars-select-only-when-extra-columns", "C17", PM, "        data = data.select(blocks_in.block_columns)\n", "        if len(data.columns) != len(blocks_in.block_columns):\n            data = data.select(blocks_in.block_columns)\n")
+
+# rules written after the eighth seeding round
+v("c27-sort-only-when-ordered-functions", "C27", PB, "            if len(order_cols) > 0:\n                # order by partition and order columns only", "            if (len(order_cols) > 0) and data_algebra.expr_rep.implies_windowed(op.ops):\n                # order by partition and order columns only")
+v("c24-xor-membership-from-raw-operand", "C24", OSF, "        other = OrderedSet(other)\n        return OrderedSet(\n            [e for e in self if e not in other] + [e for e in other if e not in self]\n        )\n", "        members = set(other)\n        return OrderedSet(\n            [e for e in self if e not in members] + [e for e in other if e not in self]\n        )\n")
+v("c12-expression-text-memoised", "C12", ER2, "        n_args = len(self.args)\n        if n_args <= 0:\n            return PythonText(self.op + \"()\", is_in_parens=False)\n", "        if getattr(self, \"_txt\", None) is None:\n            self._txt = self._fmt(want_inline_parens=want_inline_parens)\n        return self._txt\n\n    def _fmt(self, *, want_inline_parens: bool):\n        n_args = len(self.args)\n        if n_args <= 0:\n            return PythonText(self.op + \"()\", is_in_parens=False)\n")
+v("c04-where-written-into-sub-step", "C04", SM, "        view_name = \"select_rows_\" + str(temp_id_source[0])\n", "        if isinstance(subsql, data_algebra.near_sql.NearSQLUnaryStep) and (subsql.suffix is None):\n            subsql.suffix = [\"WHERE\", self.expr_to_sql(select_rows_node.expr)]\n            return subsql\n        view_name = \"select_rows_\" + str(temp_id_source[0])\n")
